@@ -20,13 +20,23 @@ cache (every execution passes its own map to `_compile_w_cache` and to `_init_co
         map target None on a dialect without default_schema_name (unconnected)
   (K4)  the caller's map object is not modified
   any other exception, or any other text, violates the contract.
+  Map objects with a history (CARRIERS).  The map of an execution is what the caller's dictionary says at that moment; how
+  the dictionary object came about is immaterial.  m_i above is the *intended* map of step i; the object handed to the
+  engine is, per sequence, produced in one of three ways:  "fresh" a new dict per execution;  "reuse" one and the same
+  dict object for all executions, re-pointed in between (the keys of the previous intended map that are not in the new one
+  are deleted, the new items stored — whatever else the object holds is left alone, a caller does not know of it);
+  "derived" a copy dict(previous object) updated the same way.  K1-K4 are demanded of every step exactly as for fresh
+  dicts.  DDL takes part in this dimension (a DDL execution shares no compiled object with the previous one, but it may
+  share the map object).
 
 Scope: worlds = the fixed schema a/b/sch.c with the schemas of a and b (and c, thorough) drawn from a small alphabet of
 names incl. quoting-needing ones; all total maps of the used schemas into {t1, "T 2"}, single-key partial maps, identity,
 unrelated key, None target; 2-3 map sequences over one cache; and every one of these sequences again with the empty map {}
 resp. "absent" inserted at every position (before, between, after: the cache is first populated / later hit by an
 execution that translates nothing), plus the sequences made of {} / absent only; Core / ORM statements and world DDL from
-the corpus; six dialects.
+the corpus; six dialects.  Carrier dimension: every multi-map sequence (before the insertion of the neutral maps), the
+re-pointing sequences [{k: t1}] -> [{k: "T 2"}] for every used schema k and [total map -> other total map] (also with {}
+in between), each as "reuse" and as "derived" (the re-pointing sequences also "fresh"), for statements and DDL.
 """
 import hashlib
 import itertools
@@ -89,20 +99,7 @@ def worlds(tier):
 
 def maps_for(w, tier):
     """map sequences (lists of <= 4 maps; a map is a [[key, value], ...] pair list so that None keys stay JSON-able, [] = the empty map, "absent" = no map)"""
-    keys = sorted(set(w), key=lambda k: (k is not None, str(k)))
-    total = [list(zip(keys, tv)) for tv in itertools.product(TARGETS, repeat=len(keys))]
-    singles = [[(k, "t1")] for k in keys]
-    nonone = [k for k in keys if k is not None]
-    extra = [[(k, k) for k in nonone] or [("zz", "t1")], [("unrelated", "t1")] + [(keys[-1], "T 2")], [(keys[0], None)] + [(k, "t1") for k in keys[1:]]]
-    seqs = [[m] for m in total + singles + extra]
-    # one cache, several maps: same keys / other values ; None key appearing / disappearing ; partial after total
-    seqs += [[total[0], total[-1], total[0]], [total[-1], singles[-1], total[0]]]
-    if None in keys and nonone:
-        with_none, without = total[0], [(k, "t1") for k in nonone]
-        seqs += [[with_none, without], [without, with_none], [without, with_none, without]]
-    if tier != "quick":
-        seqs += [[a, b] for a in total[:3] for b in (singles + extra)[:4]]
-    seqs = [[[list(p) for p in m] for m in seq] for seq in seqs]
+    seqs = base_sequences(w, tier)
     # the maps that translate nothing — {} and "no schema_translate_map option" — as elements of every sequence, in every
     # position, over the same cache; and on their own
     out, seen = [], set()
@@ -116,6 +113,24 @@ def maps_for(w, tier):
     return out
 
 
+def base_sequences(w, tier):
+    """the map sequences before the neutral maps are inserted"""
+    keys = sorted(set(w), key=lambda k: (k is not None, str(k)))
+    total = [list(zip(keys, tv)) for tv in itertools.product(TARGETS, repeat=len(keys))]
+    singles = [[(k, "t1")] for k in keys]
+    nonone = [k for k in keys if k is not None]
+    extra = [[(k, k) for k in nonone] or [("zz", "t1")], [("unrelated", "t1")] + [(keys[-1], "T 2")], [(keys[0], None)] + [(k, "t1") for k in keys[1:]]]
+    seqs = [[m] for m in total + singles + extra]
+    # one cache, several maps: same keys / other values ; None key appearing / disappearing ; partial after total
+    seqs += [[total[0], total[-1], total[0]], [total[-1], singles[-1], total[0]]]
+    if None in keys and nonone:
+        with_none, without = total[0], [(k, "t1") for k in nonone]
+        seqs += [[with_none, without], [without, with_none], [without, with_none, without]]
+    if tier != "quick":
+        seqs += [[a, b] for a in total[:3] for b in (singles + extra)[:4]]
+    return [[[list(p) for p in m] for m in seq] for seq in seqs]
+
+
 EMPTY = []            # schema_translate_map={}
 ABSENT = "absent"     # no schema_translate_map option at all (None reaches _compile_w_cache)
 
@@ -125,6 +140,46 @@ def as_map(pairs):
     if pairs == ABSENT:
         return None
     return {k: v for k, v in pairs}
+
+
+CARRIERS = ("fresh", "reuse", "derived")
+
+
+def carried_maps(seq, carrier):
+    """generator of the map object handed to the engine at each step (None for 'absent'); consumed step by step, so that
+    what an execution did to the object is there when the next object is made from it"""
+    prev, prev_keys = None, set()
+    for pairs in seq:
+        if pairs == ABSENT:
+            yield None
+            continue
+        intended = {k: v for k, v in pairs}
+        if carrier in (None, "fresh") or prev is None:
+            obj = dict(intended)
+        else:
+            obj = prev if carrier == "reuse" else dict(prev)
+            for k in prev_keys - set(intended):
+                obj.pop(k, None)
+            obj.update(intended)
+        prev, prev_keys = obj, set(intended)
+        yield obj
+
+
+def carrier_sequences(w, tier):
+    """[(sequence, carrier)] of the carrier dimension for world w"""
+    keys = sorted(set(w), key=lambda k: (k is not None, str(k)))
+    multi = [seq for seq in base_sequences(w, tier) if len(seq) > 1]
+    total = [list(zip(keys, tv)) for tv in itertools.product(TARGETS, repeat=len(keys))]
+    repoint = [[[(k, "t1")], [(k, "T 2")]] for k in keys] + [[total[0], total[-1]], [total[0], EMPTY, total[-1]], [total[-1], total[0], total[-1]]]
+    repoint = [[m if m == EMPTY else [list(p) for p in m] for m in seq] for seq in repoint]
+    out, seen = [], set()
+    for seq, carriers in [(s_, CARRIERS[1:]) for s_ in multi] + [(s_, CARRIERS) for s_ in repoint]:
+        for c_ in carriers:
+            k = json.dumps([seq, c_])
+            if k not in seen and not (c_ == "fresh" and seq in multi):
+                seen.add(k)
+                out.append((seq, c_))
+    return out
 
 
 def opts_for(m):
@@ -141,16 +196,17 @@ def _exc(e):
     return ("EXC", type(e).__name__, str(e)[:100])
 
 
-def render_sequence(desc, w, seq, dn, cache_size=50):
+def render_sequence(desc, w, seq, dn, cache_size=50, carrier=None):
     """[(rendered text | ('EXC', type, msg), compiled-with-none-placeholder?, map-mutated?)] for each map of the sequence, one cache"""
     from sqlalchemy.util import LRUCache
     d = C.get_dialect(dn)
     stmt = C.build(desc, C.world(w))
     cache = LRUCache(cache_size)
     out = []
-    for pairs in seq:
-        m = as_map(pairs)
+    for pairs, m in zip(seq, carried_maps(seq, carrier)):
         before = dict(m or {})
+        intended = as_map(pairs) or {}
+        stale = bool(m) and "_none" in m and "_none" not in intended and None not in intended
         has_none_ph = None
         try:
             with warnings.catch_warnings():
@@ -167,7 +223,7 @@ def render_sequence(desc, w, seq, dn, cache_size=50):
         except Exception as e:  # noqa: BLE001
             text = _exc(e)
         mutated = {k: v for k, v in (m or {}).items() if k not in before or before[k] != v} or None
-        out.append((text, has_none_ph, mutated))
+        out.append((text, has_none_ph, mutated, stale))
     return out
 
 
@@ -197,16 +253,20 @@ def _reference(desc, tw, dn):
         return _exc(e)
 
 
-def judge(name, desc, w, seq, dn):
-    """contract clauses for one (statement, world, map sequence, dialect); returns (n evaluations, failures, texts)"""
+def judge(name, desc, w, seq, dn, carrier=None):
+    """contract clauses for one (statement, world, map sequence, dialect[, carrier]); returns (n evaluations, failures, texts)"""
     fails, texts = [], set()
-    rendered = render_sequence(desc, w, seq, dn)
+    rendered = render_sequence(desc, w, seq, dn, carrier=carrier)
     isddl = desc["k"] == "ddl"
-    for i, (pairs, (got, has_none_ph, mutated)) in enumerate(zip(seq, rendered)):
+    for i, (pairs, (got, has_none_ph, mutated, stale)) in enumerate(zip(seq, rendered)):
         m = as_map(pairs) or {}
         # the placeholder-carrying compiled object was built at the first execution with a non-empty map
         m1 = next((as_map(p) for p in seq[:i + 1] if as_map(p)), {})
         inp = dict(statement=name, stmt=desc, world=list(w), maps=seq, step=i, dialect=dn)
+        if carrier is not None:
+            inp["carrier"] = carrier
+        if stale:                   # observation: the carried object holds a '_none' item that is not the caller's, and no None key
+            inp["map_object_has_stale__none"] = True
 
         def fail(clause, expected, actual):
             fails.append(dict(function="%s:%s:%s" % (clause, "ddl" if isddl else desc["k"], dn), input=inp, expected=expected, actual=actual))
@@ -249,7 +309,9 @@ def _cases(tier):
     out = []
     for w in worlds(tier):
         for seq in maps_for(w, tier):
-            out.append((w, seq))
+            out.append((w, seq, None))
+        for seq, carrier in carrier_sequences(w, tier):
+            out.append((w, seq, carrier))
     return out
 
 
@@ -264,14 +326,15 @@ def _worker(shard, nshards, tier, seed):
     cases = _cases(tier)
     if seed:
         random.Random(seed).shuffle(cases)
-    out = dict(evals=0, failures=[], texts=set(), ncases=len(cases), samples=[], nworlds=len(worlds(tier)), neutral=0)
+    out = dict(evals=0, failures=[], texts=set(), ncases=len(cases), samples=[], nworlds=len(worlds(tier)), neutral=0, carried=0, ncarried=sum(1 for c_ in cases if c_[2] is not None))
     name, desc, dn = _units()[shard]
     _REF.clear()
-    for w, seq in cases:
-        if desc["k"] == "ddl" and len(seq) > 1:
-            continue                                   # DDL is compiled per execution: no shared compiled object
-        n, fails, texts = judge(name, desc, w, seq, dn)
+    for w, seq, carrier in cases:
+        if desc["k"] == "ddl" and len(seq) > 1 and carrier in (None, "fresh"):
+            continue                                   # DDL is compiled per execution: no shared compiled object (it may share the map object: carriers)
+        n, fails, texts = judge(name, desc, w, seq, dn, carrier)
         out["evals"] += n
+        out["carried"] += n if carrier is not None else 0
         out["neutral"] += sum(1 for m in seq if not as_map(m))
         out["failures"] += fails
         out["texts"].update(texts)
@@ -285,8 +348,9 @@ def _worker(shard, nshards, tier, seed):
 def run(run, tier, seed, args):
     res = C.shard_run(_worker, len(_units()), (tier, seed))
     texts, failures, samples = set(), [], []
-    evals = neutral = 0
+    evals = neutral = carried = 0
     for r in res:
+        carried += r["carried"]
         texts.update(r["texts"])
         failures += r["failures"]
         samples += r["samples"]
@@ -298,12 +362,15 @@ def run(run, tier, seed, args):
         distinct_nontrivial=len(texts),
         rule="every (world, map sequence) x statement x dialect: the statement is compiled once through _compile_w_cache with the first map and rendered through the real "
              "_init_compiled / _init_ddl for every map of the sequence (one shared cache), and compared with the same descriptor built over the translated schemas; "
-             "evaluations = renderings judged (%d of them executions with the empty map / without a map inside a sequence); distinct_nontrivial = distinct (dialect, rendered SQL) that contain a translated schema, counted by hash" % neutral,
+             "evaluations = renderings judged (%d of them executions with the empty map / without a map inside a sequence; %d of them in sequences whose map object is carried over "
+             "from the previous execution — the same dict re-pointed, or a copy of it updated); distinct_nontrivial = distinct (dialect, rendered SQL) that contain a translated schema, counted by hash" % (neutral, carried),
         samples=samples[:2],
         exhaustive=True,
         scope="%d worlds (schemas of a, b%s from %s) x their map sequences (all total maps into %s, single-key maps, identity, unrelated key, None target, and 2-3 map sequences over one "
-              "cache incl. None key appearing/disappearing; each of these also with {} resp. no map inserted at every position of the sequence, and the sequences of {} / no map only) = %d (world, sequence) cases x %d statements %s + %d DDL constructs %s (single maps) x dialects %s"
-              % (res[0]["nworlds"], "" if tier == "quick" else ", c", QUICK_NAMES + ["_none", "x]y"] if tier == "quick" else THOROUGH_NAMES, TARGETS, res[0]["ncases"], len(STATEMENTS),
+              "cache incl. None key appearing/disappearing; each of these also with {} resp. no map inserted at every position of the sequence, and the sequences of {} / no map only; "
+              "carrier dimension: the multi-map sequences and the re-pointing sequences ({k: t1} -> {k: 'T 2'} per schema k, total -> other total, also via {}) with the map object reused / "
+              "derived from the previous one: %d of the cases) = %d (world, sequence[, carrier]) cases x %d statements %s + %d DDL constructs %s (single maps, and the carrier sequences) x dialects %s"
+              % (res[0]["nworlds"], "" if tier == "quick" else ", c", QUICK_NAMES + ["_none", "x]y"] if tier == "quick" else THOROUGH_NAMES, TARGETS, res[0]["ncarried"], res[0]["ncases"], len(STATEMENTS),
                  sorted(STATEMENTS), len(DDL), sorted(DDL), list(DIALECTS)))
     run.assumptions += [
         "dialects are unconnected: default_schema_name is None, so a None target is a documented CompileError where the dialect has no default schema",
@@ -315,11 +382,15 @@ def run(run, tier, seed, args):
 
 def replay(data):
     inp = data["input"]
-    n, fails, _ = judge(inp["statement"], inp["stmt"], tuple(inp["world"]), inp["maps"], inp["dialect"])
-    mine = [f for f in fails if f["function"] == data.get("function")] or fails
+    n, fails, _ = judge(inp["statement"], inp["stmt"], tuple(inp["world"]), inp["maps"], inp["dialect"], inp.get("carrier"))
+    mine = [f for f in fails if f["function"] == data.get("function")] if data.get("function") else fails
+    others = sorted({f["function"] for f in fails if f not in mine})
     if mine:
         f = mine[0]
-        print("REPLAY-FAILS C16 %s world=%s maps=%s step=%d\n  expected: %s\n  actual:   %s" % (f["function"], inp["world"], json.dumps(inp["maps"]), f["input"]["step"], str(f["expected"])[:500], str(f["actual"])[:500]))
+        print("REPLAY-FAILS C16 %s world=%s maps=%s%s step=%d\n  expected: %s\n  actual:   %s" % (f["function"], inp["world"], json.dumps(inp["maps"]), " carrier=%s" % inp["carrier"] if inp.get("carrier") else "", f["input"]["step"], str(f["expected"])[:500], str(f["actual"])[:500]))
         return 1
+    if others:
+        print("REPLAY-PASSES C16 %s world=%s: clause %s holds at every step; other clause classes firing on this case (see known findings): %s" % (inp["statement"], inp["world"], data.get("function"), others))
+        return 0
     print("REPLAY-PASSES C16 %s world=%s: every rendering equals the construct built with the target schemas" % (inp["statement"], inp["world"]))
     return 0
